@@ -111,7 +111,11 @@ def check(ctx):
 def check_taint(ctx):
     db = ctx.db
     spec = json.loads(_SPEC.read_text())
-    benign = {b['source']: b for b in spec.get('benign_sources', [])}
+    benign = {b['source']: b for b in spec.get('benign_sources', [])
+              if 'source' in b}
+    # sinks that are not results: (function, sink description)
+    benign_sinks = {(b['function'], b['sink']): b
+                    for b in spec.get('benign_sinks', [])}
     eng = TaintEngine(db, ctx.cg, stage_api=STAGE_API)
     findings = eng.analyse_all(in_pipeline)
     rule = 'R-TAINT/order-to-sink'
@@ -130,6 +134,13 @@ def check_taint(ctx):
         srcs = sorted({lab[1] for lab in f.labels})
         kinds = sorted({lab[0] for lab in f.labels})
         ctx.touch(f.fi)
+        bs = benign_sinks.get((f.fi.qual, f.sink))
+        if bs is not None:
+            used.add(('sink', f.fi.qual, f.sink))
+            ctx.ok(rule + '/benign', f.key(), f.fi.loc(f.site),
+                   'this sink is recorded as not being a result: '
+                   + bs['reason'], nontrivial=True)
+            continue
         if all(s in benign for s in srcs):
             for s in srcs:
                 used.add(s)
@@ -152,6 +163,12 @@ def check_taint(ctx):
                  witness=[f'source: {x}' for x in locs]
                  + [f'via {cf.qual} L{cs.lineno}: {unparse(cs)[:70]}'
                     for (cf, cs) in f.chain])
+    for (fq, sk), b in benign_sinks.items():
+        if ('sink', fq, sk) in used:
+            ctx.exceptions_used.append(
+                {'rule': rule, 'key': f'{fq}|{sk}', 'reason': b['reason']})
+        else:
+            ctx.note(f'benign sink not encountered (stale?): {fq}|{sk}')
     for s, b in benign.items():
         if s not in used:
             ctx.note(f'benign source not encountered (stale?): {s}')
